@@ -9,8 +9,9 @@ with the pool's broadcast) is proved in Props/C05pool.v by the pool builder; the
 """
 from vlib import core, flow
 
-EXTRA_PROPS = []
-EXTRA_OBSERVERS = []
+EXTRA_PROPS = ["Props/C05pool.v"]   # pool wake-up half (family lts): C05_pool_wakeup, C05_pool_done_ctx_never_parks, C05_pool_wakeup_refuted_orig
+EXTRA_OBSERVERS = [dict(cmd="obs_pool", imports=["Model.Pool"], case_type="Pool.case", check="Pool.check_case",
+                        shard=75, corpus=False, n={"quick": 300, "thorough": 6000}, timeout={"quick": 600, "thorough": 3000})]
 
 SPEC = dict(
     props_file="Props/C05.v",
